@@ -38,7 +38,7 @@ claimed={
  "C15":("exploration","metamorphic differential: same history under re-drawn signature encodings (In/Out nesting, variadic, option vs tag)","E-dyn x2",
    "verdict class, execution set, abstracted provenance of every argument and Info lists must agree between the two encodings, faults included","functions using As and soft groups are not re-encoded (evaluation order of soft fields is encoding dependent by design)"),
  "C16":("exploration","metamorphic differential: permuted registration runs, moved scope creations, toggled Defer","E-dyn x2",
-   "the block stays all-accepted, every Invoke keeps its success/failure verdict and every successful Invoke its wiring; Defer toggled only when no cycle is ever reported","no faults, no soft groups; what a failing Invoke built before failing is not compared"),
+   "the block stays all-accepted, every Invoke keeps its success/failure verdict and every successful Invoke its wiring; Defer toggled only when no cycle is ever reported","no faults, no soft groups; what a failing Invoke built before failing is not compared; two order dependences inherent in dig's design are known findings (F22 decorator-mediated cycles, F23 partial work before a dependency failure)"),
  "C17":("exploration","metamorphic differential: DryRun container vs normal container","E-dyn x2",
    "the dry container must execute nothing in any scope and report the same verdict class, Info and DOT for every operation as the normal container with all faults off","callbacks not compared"),
  "C19":("exploration","own strict DOT + HTML-label parser; structural comparison with the spec state; failure pictures validated against the demand paths of the spec","E-pool",
@@ -69,7 +69,7 @@ m={"version":1,"setup_cmd":"./verif.sh setup",
   {"name":"E-pool","path":"/verif/harness/pool","serves_properties":["C18","C19","C20"],"kind_free_text":"384 generated declared functions (distinct code pointers) forwarding to the monitor body: constructor ids, locations, callback names"},
   {"name":"E-graph","path":"/verif/harness/c05.go","serves_properties":["C05"],"kind_free_text":"hook VerifIsAcyclic: the real cycle search on arbitrary digraphs"}],
  "checks":checks,"not_applicable":na,
- "notes":"Runtime monitoring only. Exit 0 held / 1 VIOLATION / 3 INCONCLUSIVE. KNOWN_FINDINGS.txt lists 21 genuine defects observed by the monitors on the unrepaired tree: 20 repaired by fix: commits in /repo, 1 recorded as a known finding (F16, C13). DESIGN.md sections 14 and 15 are authoritative for what exists."}
+ "notes":"Runtime monitoring only. Exit 0 held / 1 VIOLATION / 3 INCONCLUSIVE. KNOWN_FINDINGS.txt lists 23 genuine defects observed by the monitors: 20 repaired by fix: commits in /repo, 3 recorded as known findings (F16 for C13; F22, F23 for C16). DESIGN.md sections 14 and 15 are authoritative for what exists."}
 json.dump(m,open('/verif/MANIFEST.json','w'),indent=1)
 import jsonschema
 jsonschema.validate(m,json.load(open('/root/.vp/MANIFEST.schema.json')))
